@@ -1838,3 +1838,158 @@ def infer_case(v, shape, kinds, N, serialise):
             SS.float = saved[0]
         IO.yaml = saved[1]
     return dict(obs=o, asserts=asserts, facts=facts)
+
+
+# ------------------------------------------------------------------ coercion contract (C10, narrow claim)
+def _stub_dtype(v, u, target="float64"):
+    """a pandas_engine DataType whose element conversion is a contract stub: element i cannot be converted iff u[i];
+    coerce (the vectorised conversion) raises iff some present element cannot be converted.  Cell values ARE the slot
+    numbers, so coerce_value(x) can consult u[x]."""
+    import numpy as np
+    from pandera.engines import pandas_engine
+
+    class StubDT(pandas_engine.DataType):
+        """derives from pandas_engine.DataType so that the REAL pandas_engine.DataType.try_coerce (which hands `self` to
+        numpy_pandas_coerce_failure_cases) is the code under analysis"""
+        type = np.dtype(target)
+
+        def coerce(self, data_container):
+            if isinstance(data_container, symframe.Series):
+                from symx import eng
+
+                bad = zor(z3.And(p, v.z(u[_slot(x)])) for x, p in zip(data_container.vals, data_container.present))
+                if eng().branch(bad):
+                    raise ValueError("stub: cannot convert")
+                return data_container._new(vals=[z3.ToReal(x) if z3.is_int(x) else x for x in data_container.vals], dtype=np.dtype(target), kind="float")
+            if any(bool(u[int(x)]) for x in data_container.tolist()):
+                raise ValueError("stub: cannot convert")
+            return data_container.astype(target)
+
+        def coerce_value(self, value):
+            i = _slot(value)
+            flag = u[i]
+            if bool(flag):
+                raise ValueError("stub: cannot convert element")
+            return value
+
+    return StubDT(np.dtype(target))
+
+
+def _slot(x):
+    from symx import SymInt as _SI, SymReal as _SR
+
+    if isinstance(x, (_SI, _SR)):
+        x = x.z
+    if z3.is_expr(x):
+        s = z3.simplify(x)
+        if z3.is_int_value(s):
+            return s.as_long()
+        if z3.is_rational_value(s):
+            return int(s.as_fraction())
+        raise ModelGapT("slot number is not concrete")
+    return int(x)
+
+
+from symx import ModelGap as ModelGapT  # noqa: E402
+
+
+def coerce_stub_case(v, N, container):
+    """the real try_coerce / numpy_pandas_coerce_failure_cases protocol over the stub pair"""
+    from pandera import errors as E
+
+    u = [v.bool(f"u{i}") for i in range(N)]
+    dt = _stub_dtype(v, u)
+    labels = [z3.Int(f"l{i}") for i in range(N)]
+    obj = v.frame([("c", "int", False, list(range(N)))], N, labels="l", distinct_labels=True)
+    ser = obj["c"] if not v.sym else obj._get("c")
+    if container == "index":
+        raise KeyError(container)
+    snap = H.snapshot(ser)
+    asserts, facts = [], {}
+    try:
+        out = dt.try_coerce(ser)
+        facts["kind"] = "coerced"
+        asserts.append(("coerce/succeeds_only_if_all_convertible", v.holds(z3.Not(zor(v.z(x) for x in u)))))
+        asserts.append(("coerce/same_rows_and_labels", H.equal_to_snapshot(v, out, snap, values_only=True)))
+        asserts.append(("coerce/result_passes_dtype_check", v.holds(bool(dt.check(pa_engine_dtype(out.dtype))))))
+        out2 = dt.try_coerce(out)
+        asserts.append(("coerce/idempotent", H.equal_to_snapshot(v, out2, H.snapshot(out))))
+    except E.ParserError as exc:
+        facts["kind"] = "ParserError"
+        fc = exc.failure_cases
+        asserts.append(("coerce/fails_only_if_some_inconvertible", v.holds(zor(v.z(x) for x in u))))
+        # failure cases are exactly the inconvertible elements (label, value)
+        if fc is None:
+            asserts.append(("coerce/failure_cases_exact", v.holds(False)))
+        elif isinstance(fc, symframe.DataFrame):
+            cols = {k: c for k, c in fc._cols}
+            R = len(fc.present)
+            comp, sound = [], []
+            for i in range(N):
+                hit = zor(z3.And(fc.present[r], _num_eq(cols["index"].vals[r], labels[i]), _num_eq(cols["failure_case"].vals[r], z3.IntVal(i))) for r in range(R))
+                comp.append(z3.Implies(v.z(u[i]), hit))
+            for r in range(R):
+                sound.append(z3.Implies(fc.present[r], zor(z3.And(v.z(u[i]), _num_eq(cols["index"].vals[r], labels[i]), _num_eq(cols["failure_case"].vals[r], z3.IntVal(i))) for i in range(N))))
+            asserts.append(("coerce/failure_cases_exact", v.holds(z3.And(zand(comp), zand(sound)))))
+        else:
+            got = sorted((int(r["index"]), int(r["failure_case"])) for _, r in fc.iterrows())
+            want = sorted((int(v.vals.term(labels[i])), i) for i in range(N) if bool(u[i]))
+            asserts.append(("coerce/failure_cases_exact", got == want))
+    except Exception as exc:  # noqa: BLE001
+        facts["kind"] = "leak:" + type(exc).__name__
+        facts["_msg"] = str(exc)[:150]
+        asserts.append(("coerce/documented_error", v.holds(False)))
+    asserts.append(("coerce/input_unchanged", H.equal_to_snapshot(v, ser, snap)))
+    return dict(obs=None, asserts=asserts, facts=facts)
+
+
+def pa_engine_dtype(dt):
+    from pandera.engines import pandas_engine
+
+    return pandas_engine.Engine.dtype(dt)
+
+
+def coerce_schema_case(v, direction, N, level, lazy):
+    """schema-level use with the numeric astype model: accepts iff the data is coercible and the COERCED data satisfies the
+    declared constraints (this notices a coercion that is silently skipped on some path)"""
+    lo = v.int("lo")
+    src, dst = ("int", float) if direction == "i2f" else ("float", int)
+    arr = [("a", src)]
+    df = v.frame(arr, N, labels="l", distinct_labels=True)
+    xs, ns = v.cells("a_", src, N, src == "float")
+    if level == "column":
+        schema = pa.DataFrameSchema({"a": pa.Column(dst, Check.ge(lo), coerce=True, unique=v.bool("unique"))})
+    elif level == "schema":
+        schema = pa.DataFrameSchema({"a": pa.Column(dst, Check.ge(lo), unique=v.bool("unique"))}, coerce=True)
+    elif level == "series":
+        schema = pa.SeriesSchema(dst, Check.ge(lo), coerce=True, unique=v.bool("unique"), name="a")
+        df = df["a"] if not v.sym else df._get("a")
+    elif level == "component":
+        schema = pa.Column(dst, Check.ge(lo), coerce=True, unique=v.bool("unique"), name="a")
+    o = H.outcome(lambda: schema.validate(df, lazy=lazy))
+    uniq = v.z(schema.unique if level in ("series", "component") else schema.columns["a"].unique)
+    if direction == "i2f":
+        conv = [z3.ToReal(x) for x in xs]
+        coercible = z3.BoolVal(True)
+    else:
+        conv = [z3.If(x >= 0, z3.ToInt(x), -z3.ToInt(-x)) for x in xs]  # numpy truncates towards zero
+        coercible = z3.Not(zor(ns))
+    okc = zand(c >= v.z(lo) for c in conv)
+    nodup = zand(conv[i] != conv[j] for i in range(N) for j in range(i))
+    spec = z3.And(coercible, okc, z3.Implies(uniq, nodup))
+    asserts = [("coerce/schema_verdict", v.iff(o["kind"] == "accept", spec)), ("coerce/schema_channel", v.holds(channel_ok(o)))]
+    if o["kind"] != "accept":
+        reasons = o.get("reasons") or [o.get("reason")]
+        asserts.append(("coerce/uncoercible_reported_as_coercion_error", v.iff("DATATYPE_COERCION" in reasons, z3.Not(coercible)) if lazy else v.holds(True)))
+    if o["kind"] == "accept":
+        out = o["out"]
+        want_kind = "float" if direction == "i2f" else "int"
+        if isinstance(out, (symframe.DataFrame, symframe.Series)):
+            col = out._get("a") if isinstance(out, symframe.DataFrame) else out
+            asserts.append(("coerce/output_has_target_dtype", v.holds(col.kind == want_kind)))
+            asserts.append(("coerce/output_values_converted", v.holds(zand(z3.And(p, _num_eq(a, b)) for a, b, p in zip(col.vals, conv, col.present)))))
+        else:
+            col = out["a"] if hasattr(out, "columns") else out
+            asserts.append(("coerce/output_has_target_dtype", str(col.dtype).startswith(want_kind)))
+            asserts.append(("coerce/output_values_converted", [float(x) for x in col.tolist()] == [float(v.vals.term(c)) for c in conv]))
+    return dict(obs=o, asserts=asserts, facts=dict(kind=o["kind"], reason=o.get("reason"), reasons=o.get("reasons")))
